@@ -171,3 +171,30 @@ Theorem C12_schedule_free : forall es l rcx step,
   (forall p, ev_eq (e_bytes step p (mkE es rcx)) (a_bytes p (mkS l rcx))).
 Proof. exact schedule_free_prims. Qed.
 Print Assumptions C12_schedule_free.
+
+(* the WHOLE value reader and skipper over an event stream (Thrift/AsyncEvVal.v: event-level copies of
+   every reader of Async.v -- ttype, bool, struct / field / collection / map headers, the loops,
+   aread_val -- and of askip_val, built from the e_ primitives): for EVERY event list whose chunks
+   concatenate to l -- any chunking, empty chunks, Pending tokens anywhere, any growth policy of
+   read_exact_to_vec -- they return what aread_val / askip_val return on l (same value, same error,
+   same panic) and leave the events that deliver exactly the unread bytes *)
+From PV Require Import Thrift.AsyncEvVal Proofs.AsyncEvValP.
+Theorem C12_value_schedule_free : forall step p f ty es l rcx,
+  bytes_of es = l ->
+  ev_eq (e_read_val step p f ty (mkE es rcx)) (aread_val p f ty (mkS l rcx)) /\
+  forall d, ev_eq (e_skip_val step p f d ty (mkE es rcx)) (askip_val p f d ty (mkS l rcx)).
+Proof. exact value_schedule_free. Qed.
+Print Assumptions C12_value_schedule_free.
+
+(* hence, with C12_outcome: the in-memory reader on l and the asynchronous reader under EVERY delivery
+   schedule of l agree -- same value, same reader context, the unread events deliver exactly the bytes
+   the in-memory reader left; an error whenever the in-memory reader reports one *)
+Theorem C12_sync_async_every_schedule : forall step p f ty es l rcx,
+  bytes_of es = l -> idle rcx -> Z.of_nat (length l) < 2 ^ 63 ->
+  match read_val p f ty (mkS l rcx) with
+  | Ok (v, s') => exists es', e_read_val step p f ty (mkE es rcx) = Ok (v, mkE es' (rc s')) /\ bytes_of es' = rbuf s'
+  | Err _ => exists e', e_read_val step p f ty (mkE es rcx) = Err e'
+  | Panic _ => True
+  end.
+Proof. exact sync_async_every_schedule. Qed.
+Print Assumptions C12_sync_async_every_schedule.
